@@ -9178,7 +9178,7 @@ class SVG(Group):
             SVG element parsing parses the job compiling any parsed elements into their compiled object forms.
             """
             if event == "start":
-                stack.append((context, values))
+                stack.append((context, values, width, height))
                 if (
                     not parse_display_none
                     and SVG_ATTR_DISPLAY in values
@@ -9346,7 +9346,7 @@ class SVG(Group):
                         else:
                             values[SVG_ATTR_TRANSFORM] = viewport_transform
                     if context is None:
-                        stack[-1] = (context, values)
+                        stack[-1] = (context, values) + stack[-1][2:]
                     if context is not None:
                         context.append(s)
                     context = s
@@ -9499,7 +9499,7 @@ class SVG(Group):
                     and values[SVG_ATTR_DISPLAY].lower() == SVG_VALUE_NONE
                 ):
                     # We are in a display=none, do not render this. Pop values and continue.
-                    context, values = stack.pop()
+                    context, values, width, height = stack.pop()
                     continue
                 s = None
                 if tag in (
@@ -9572,7 +9572,7 @@ class SVG(Group):
                         except AttributeError:
                             pass
 
-                context, values = stack.pop()
+                context, values, width, height = stack.pop()
             elif event == "start-ns":
                 if elem[0] != SVG_ATTR_DATA:
                     # Rare wc3 test uses a 'd' namespace.
